@@ -15,7 +15,7 @@ PROPS["C02"] = {
     "technique": "Verus contracts on number_decode / utf8_decode (unbounded); Kani/CBMC harnesses on the payload decoders with number_decode replaced by its proved contract",
     "level_text": "Proved (Verus, all inputs): number_decode returns the saturated decimal value of every digit string of any length and None otherwise, without overflow; "
                   "utf8_decode on every automaton-shaped sequence returns exactly the encoded scalar value or U+FFFD, never an invalid char. "
-                  "Proved (Kani, all usize): keyboard_decode_key, sgr_color. Payload decoders (mouse, cursor report, DECRPM, size, kitty keyboard/image, DA1) are checked for every "
+                  "Proved (Kani, all usize): keyboard_decode_key, sgr_color. Payload decoders (mouse, cursor report, DECRPM, size, kitty keyboard/image; paste in the thorough tier) are checked for every "
                   "numeric value on fixed sequence templates (bounded stand-ins, listed under bounded_checks, not counted as proved). "
                   "The DFA walk, rescheduling, raw-event framing, termination and the tty read loop are NOT decided.",
     "level_note": "Assumed: MatcherDecoder::{decode,decode_byte,take_candidate}, the compiled automata (incl. that utf8_nfa accepts only utf8_shape strings), unix.rs read loop, TermCap/OSC/paste decoders (String/BTreeMap heavy), std specs listed in trusted_base.",
@@ -23,7 +23,7 @@ PROPS["C02"] = {
         "the byte-at-a-time DFA walk (MatcherDecoder) and NFA compilation are outside both verifiers: totality/termination of the walk, 'None when exhausted' and raw events being non-empty in-order slices are assumed, not decided",
         "utf8_shape (first-byte class + 10xxxxxx tails) is what utf8_nfa accepts: assumed",
         "payload decoder harnesses replace number_decode by a stub justified by its Verus contract; each covers one sequence template (bounded in shape, complete in numeric values)",
-        "TermCapMatcher, OSControlMatcher/parse_color, BracketedPasteMatcher, ReportSettingMatcher: not under contract (String/BTreeMap/str parsing)",
+        "TermCapMatcher, DeviceAttrsMatcher (BTreeMap/BTreeSet), ReportSettingMatcher (a harness on it crashes kani-compiler 0.68), OSControlMatcher (str parsing; parse_color itself has thorough-tier harnesses): not under contract",
     ],
 }
 
@@ -48,8 +48,8 @@ PROPS["C05"] = {
     "verus": [],
     "technique": "Kani/CBMC full-domain harnesses on TTYEncoder::encode per command variant (panic freedom, literal sequences, SGR code selection); core::fmt rendering assumed",
     "level_text": "Proved (Kani, every parameter value and capability setting): encode never panics or overflows for CursorTo/CursorMove/Scroll/ScrollRegion/EraseChars/DecModeSet/DecModeGet/KeyboardLevel/Color query; "
-                  "parameterless commands emit exactly their ECMA-48/xterm bytes; Face and FaceModify without colours emit one well-formed SGR sequence selecting exactly the requested attributes "
-                  "(0 first for Face; 1/22, 3/23, 5/25, 9/29, 4, 4:n, 24). Which decimal digits core::fmt prints for the numeric parameters, colour parameters (C20 covers the selection), Title/Termcap/Raw strings are NOT decided.",
+                  "parameterless commands emit exactly their ECMA-48/xterm bytes; a FaceModify that selects nothing representable emits nothing. Face / FaceModify without colours emit one well-formed SGR sequence selecting exactly the requested attributes "
+                  "(0 first for Face; 1/22, 3/23, 5/25, 9/29, 4, 4:n, 24) on 20 fixed attribute sets (bounded stand-ins: the harness over all 6 x 32 sets does not finish in CBMC). Which decimal digits core::fmt prints for the numeric parameters, colour parameters (C20 covers the selection), Title/Termcap/Raw strings are NOT decided.",
     "level_note": "Assumed: core::fmt (write! templates and integer Display) - the sink in the harnesses records literal bytes and counts formatted writes; colours go through write! into Chunks and are outside CBMC's reach.",
     "assumptions": [
         "core::fmt is intractable for CBMC (probe: > 7 min, > 10 GB): the pairing of each numeric template with its arguments and the decimal rendering are read from the source, not proved",
@@ -64,8 +64,8 @@ PROPS["C06"] = {
     "technique": "Kani/CBMC full-domain harnesses: attribute set algebra, FaceModify::apply against SGR semantics, sgr_color; sgr_face against a reference SGR interpreter on parameter templates (bounded)",
     "level_text": "Proved (Kani, complete): FaceAttrs pack/unpack/insert/remove/contains and all six bit operators agree with the (underline style, 5 flags) view for all pairs; "
                   "FaceModify::apply(m, f) sets/clears every colour and attribute independently and reset restores the default face for every m x f; sgr_color decodes every colour form and consumes exactly its own parameters; "
-                  "FaceModify without colours is encoded with standard codes. sgr_face equals a reference SGR interpreter (later overrides earlier, 0/empty resets, colon forms, unknown codes ignored) for every numeric value on "
-                  "~45 parameter templates (bounded stand-ins). Encoder->decoder round trip of colours passes through core::fmt and the DFA: NOT decided end to end.",
+                  "sgr_face equals a reference SGR interpreter (later overrides earlier, 0/empty resets, colon forms, unknown codes ignored) for every numeric value on "
+                  "~45 parameter templates (bounded stand-ins); FaceModify without colours is encoded with exactly the standard codes on fixed cases (bounded stand-ins). Encoder->decoder round trip of colours passes through core::fmt and the DFA: NOT decided end to end.",
     "level_note": "Assumed: TTYCellWriter/TTYCommandDecoder (DFA), core::fmt rendering of colour components; SGR codes FaceModify cannot express (7/27, 39/49/59, 2/8) and the ambiguous 21 are outside the compared domain.",
     "assumptions": [
         "reference SGR interpreter transcribed from ECMA-48/xterm/kitty; inputs it marks undefined (codes FaceModify cannot express, 21, malformed colour forms) are not compared",
@@ -106,19 +106,21 @@ PROPS["C08"] = {
 }
 
 PROPS["C10"] = {
-    "kani": ["c10_layout", "c10_flex"],
+    "kani": ["c10_layout", "c10_flex", "c10_container"],
     "verus": ["surface"],
     "technique": "Kani/CBMC full-domain harnesses on constraint clamp and alignment arithmetic; Verus contract on Layout::apply_to over the C07 window model; the View-tree induction is not mechanised",
     "level_text": "Proved (Kani, all usize): Size::clamp / BoxConstraint::clamp return a size inside every constraint with min <= max (identity inside), loosen/loose/tight as documented; "
                   "Align::align places the (clamped) child inside the space for Start/Center/End/Expand/Shrink and never panics. These are the functions every leaf and container view ends its layout with. "
                   "Proved (Verus, unit surface): Layout::apply_to - the call every view's render starts with - returns a view on the same data whose window is the sub-window rows pos.row..+height, cols pos.col..+width of the "
                   "surface it was given, clipped to it (window model of C07), so whatever a view paints through it stays inside the surface it received and inside the rectangle its layout records. "
-                  "flex_layout with zero children terminates without panic within the constraint (Kani, bounded stand-in). "
-                  "Flex distribution, Container margin arithmetic, the layout tree (TreeStore), apply_to/FindPath, Frame/ScrollBar/Tag/Dynamic and rendering are NOT decided (CBMC does not get through the SmallVec layout arena; Verus has no trait-object support for View).",
+                  "Proved (Kani, complete for the one-child Container): Container::layout against a probe child that returns ANY size within the constraint it is handed (the modular View contract) - for every container size, alignment pair, margins and constraint: no panic/overflow, own size within the constraint, child constraint has min <= max. "
+                  "flex_layout with zero children and with one probe child terminates without panic within the constraint (Kani, bounded stand-ins; two or more children exhaust CBMC's memory). "
+                  "Flex distribution over several children and flex factors, the layout tree (TreeStore) as a data structure, FindPath, Frame/ScrollBar/Tag/Dynamic, Text/Image/glyph leaves and actual painting are NOT decided.",
     "level_note": "Partial: clamp/align arithmetic, Layout::apply_to and the empty flex are under contract; flex with children, Container margins and the layout arena are not.",
     "assumptions": [
         "the modular View contract (children stay within the constraint they are given) is stated in DESIGN.md but not mechanised",
-        "Container::layout, flex_layout, Layout::apply_to, FindPath, Text/Image/glyph views, JSON-built trees: outside both verifiers here",
+        "the modular View contract (a child returns a size within the constraint it is given) is what the probe child embodies; the induction over tree depth that it justifies is by argument, not mechanised",
+        "flex_layout with >= 2 children or flex factors, FindPath, Text/Image/glyph views, JSON-built trees: outside both verifiers here",
     ],
 }
 
@@ -157,19 +159,20 @@ PROPS["C13"] = {
 
 PROPS["C14"] = {
     "kani": ["c14_base64", "c14_enc_table"],
-    "verus": ["base64enc", "base64dec"],
+    "verus": ["base64enc", "base64dec", "base64rt"],
     "technique": "Verus contracts on the streaming encoder (carry-buffer algebra, unbounded, chunk independence as lemmas); Kani/CBMC complete harnesses for both tables and the 4-char quantum round trip; Verus contracts on the streaming decoder against a reader specified by the io::Read contract",
     "level_text": "Proved (Verus, any data, any partition into writes): Base64Encoder::write appends full(carry+buf) and keeps rem(carry+buf) as carry, finish appends the padded tail; with lemma_full_concat/lemma_two_writes the output "
                   "of any write sequence is b64(concatenation) per RFC 4648. Proved (Kani, complete): BASE64_ENCODE is the RFC alphabet, BASE64_DECODE its inverse, decode_u8x4(enc3(a,b,c)) == [a,b,c] for all 2^24 groups, "
                   "padded quanta give 1/2 bytes, decode_* total on arbitrary bytes. "
                   "Proved (Verus, unit base64dec; any reader obeying the io::Read contract - any short-read schedule, any error point - and any destination size): Base64Decoder::read delivers exactly the next n bytes of "
                   "pending + dec_text(text) in order, a short count happens only at end of stream after whole quanta were consumed, and an error is either the reader's or a text length that is not a multiple of four "
-                  "(tolerated as well: non-base64 characters); no index or arithmetic failure on arbitrary bytes.",
+                  "(tolerated as well: non-base64 characters); no index or arithmetic failure on arbitrary bytes. "
+                  "Proved (Verus, unit base64rt, over the same two specifications): dec_text(b64(s)) == s for every byte string s - so encoding under any write partition followed by decoding under any read schedule returns the original bytes.",
     "level_note": "Assumed: <Vec<u8> as Write>::write_all appends; sink W := Vec<u8>, source R := AnyReader (the io::Read contract as a specification); table lookups specified and discharged by Kani; dec4 == inverse of enc3 is the Kani quantum harness.",
     "assumptions": [
         "encoder sink: Vec<u8> (N6); other io::Write sinks may fail, which the contract does not model",
         "decoder source: AnyReader, an external_body reader specified by the io::Read contract (0 only at EOF/empty buffer, short reads allowed, may fail unless `reliable`)",
-        "round trip unb64(b64(s)) == s is the composition of the encoder proof, the decoder proof and the Kani quantum harness (dec4(enc3(a,b,c)) == [a,b,c], padded forms); the composition lemma itself is not mechanised",
+        "the specification text (alphabet, enc3, b64, dec_val, dec4, dec_text) is shared by textual inclusion between the units that verify the real code and the round-trip unit; the two constant tables are tied to it by the Kani table harnesses",
         "table lookups are routed through b64_enc_lookup whose specification is discharged by the Kani harness c14_encode_table",
     ],
 }
